@@ -58,6 +58,25 @@ class C14(Prop):
                 P0, V0 = E.gen_pair(rng, n2, m2, "unit", k)
                 pre = [dict(P=P0, V=V0)]
             yield dict(entry=ent, family=rule.lower() + "_" + kind + ("_reuse" if pre else ""), rule=rule, P=P, V=V, k=k, ezi=bool(i % 3), dtype=("int64" if i % 5 else "int32"), prelude=pre)
+        for c in self.crowded(rng, tier):
+            yield c
+
+    def crowded(self, rng, tier):
+        # Match-TwoQueries with many agents who share (most of) one ranking: the serial dictatorship fills the top items with
+        # ceil(sqrt n) agents each and later agents hold their third, fourth, ... choice as representative item
+        for i in range(16 if tier == "quick" else 300):
+            n = rng.randint(7, 11)
+            base = rng.sample(range(1, n + 1), n)
+            P = []
+            for a in range(n):
+                row = list(base)
+                if i % 2 and rng.random() < 0.4:
+                    x, y = rng.sample(range(n), 2); row[x], row[y] = row[y], row[x]
+                P.append(row)
+            V = []
+            for row in P:
+                vals = E.gen_valuation_row(rng, n, rng.choice(["unit", "skew", "int"]), 1); V.append([vals[r - 1] for r in row])
+            yield dict(entry="MatchTwoQueries.get_simulated_cardinal_profile", family="m2q_crowded", rule="M2Q", P=P, V=V, k=1, ezi=bool(i % 2), dtype="int64", prelude=[])
 
     def run(self, case):
         return E.run_rule(case)
